@@ -32,6 +32,19 @@ fn image(c: &Case) -> Vec<u8> {
             body[8 + j * d..8 + j * d + 40].copy_from_slice(&e[..40]);
         }
     }
+    // one map in four: 8-byte words that mean something elsewhere (an end tag, the
+    // magics, all ones ...) at aligned places inside the descriptors
+    if c.key & 0x18 == 0x08 && c.map_len >= 8 {
+        let words = c.map_len / 8;
+        for j in 0..3usize {
+            let w = marker(c.key ^ 0xE0D, j) as usize % words;
+            let p = mb2_model::encode::PATTERNS[(marker(c.key ^ 0xE0D, 8 + j) as usize + j) % mb2_model::encode::PATTERNS.len()];
+            body[8 + 8 * w..16 + 8 * w].copy_from_slice(&p);
+        }
+        // and always once the bytes of an end tag
+        let w = marker(c.key ^ 0xE0D, 20) as usize % words;
+        body[8 + 8 * w..16 + 8 * w].copy_from_slice(&mb2_model::encode::END_TAG);
+    }
     put32(&mut body, 0, c.d);
     put32(&mut body, 4, c.version);
     let mut img = mb2_model::encode::tag(17, &body);
